@@ -187,3 +187,24 @@ Proof.
   split; [exact I|cnext]. split; [exact I|cnext]. split; [exact I|cnext].
   split; [csweep|cnext]. split; [exact I|cnext]. exact I.
 Qed.
+
+(* C15 over histories: after ANY history of the steps above, a drop that completes advances the position by exactly one with
+   the empty checksum, leaves no database or log content, keeps the chain; a restart right after it reproduces that state;
+   a database recreated under the name continues the numbering from the tombstone, chained to the empty checksum *)
+Require Import LF.Proofs.DropProofs.
+Theorem g_history_drop_lifecycle lock gs s v s1 :
+  run_gsteps (init lock) (fun _ => 0) gs = Some (s, v) -> grun s GDrop = Some s1 ->
+  txid s1 = txid s + 1 /\ chk s1 = flag /\ pageN s1 = 0 /\ dbfile s1 = [] /\ wal_file s1 = [] /\ wal_mode s1 = false /\ Chain s1 /\
+  (exists s2, grun s1 GRestart = Some s2 /\ txid s2 = txid s1 /\ chk s2 = flag /\ pageN s2 = 0 /\ dbfile s2 = [] /\ ltxdir s2 = ltxdir s1) /\
+  (forall commit s3, op_commit_journal s1 commit = (Done, s3) ->
+     txid s3 = txid s + 2 /\ exists f, ltxdir s3 = ltxdir s1 ++ [f] /\ l_pre f = flag /\ l_min f = txid s + 2 /\ l_max f = txid s + 2).
+Proof.
+  intros Hrun Hd. pose proof (g_history_chain lock gs s v Hrun) as HC.
+  pose proof (g_chain_step s GDrop s1 HC Hd) as HC1.
+  cbn [grun] in Hd. destruct (op_drop s) as [oc sx] eqn:E. destruct oc; try discriminate. inversion Hd; subst sx. clear Hd.
+  destruct (drop_exact s s1 E) as [f [_ [_ [_ [_ [_ [Ht [Hc [Hp [Hdb [Hwf Hwm]]]]]]]]]]].
+  repeat (split; [assumption|]). split.
+  - destruct (drop_survives_restart s s1 E) as [s2 [Ho [A [B [C [D F]]]]]]. exists s2. cbn [grun]. rewrite Ho. auto 10.
+  - intros commit s3 H3. destruct (recreate_continues s1 commit s3 Hc H3) as [g [A [B [C [D F]]]]].
+    split; [lia|]. exists g. repeat split; try assumption; lia.
+Qed.
